@@ -958,7 +958,10 @@ func transformOrigin(tokens []Token, _ string) pr.CssProperty {
 		// Ignore third parameter as 3D transforms are ignored.
 		tokens = tokens[:2]
 	}
-	return parse2dPosition(tokens)
+	if point := parse2dPosition(tokens); !point.IsNone() {
+		return point
+	}
+	return nil
 }
 
 // @validator()
